@@ -8,8 +8,9 @@ from ..core import SubCheck, Fail, Discard, metric, target
 from ..oracles import tm_exact
 
 RULE = ("zone 1..60 (longitudes kept inside [-180, 180]), both hemispheres, first point at lat -80..84 with easting 100 000..900 000 m, "
-        "second point at any bearing, 1 m..100 km away, same hemisphere, same or adjacent zone, lines crossing the central "
-        "meridian; GRS80 (the grid functions' documented default) and the other shipped ellipsoids; non-trivial = line longer than 100 m")
+        "second point at any bearing, 1 m..100 km away, same hemisphere (or exactly on the equator), same or adjacent zone incl. zones "
+        "60 <-> 1 across the antimeridian, lines crossing the central meridian; hemisphere spelled 'south' / 'South' / 'SOUTH' or left "
+        "to its default, bearings as floats or angle objects; GRS80 (the grid functions' documented default) and the other shipped ellipsoids; non-trivial = line longer than 100 m")
 ASSUMPTIONS = ["definition: grid distance = ellipsoidal (vincinv) distance x line scale factor, grid bearing = azimuth + convergence of "
                "the point's own zone (recomputed from the library's own inverse conversion and geodesic; those are decided by C02/C05/C10)",
                "point scale factors along the line come from the exact-TM oracle (analytic derivative)",
